@@ -20,6 +20,9 @@ type Family struct {
 	Props []string // properties whose oracles this family feeds
 	New   func() any
 	Gen   func(g *rand.Rand, tier string) any
+	// GenAt, if set, is used instead of Gen: it also gets the run's global index,
+	// so that a family can enumerate a bounded space before it samples.
+	GenAt func(idx uint64, g *rand.Rand, tier string) any
 	Exec  func(e *Env, p any)
 	// Faulty families inject faults; the rest are fault-free run classes.
 	Faulty bool
